@@ -72,24 +72,38 @@ theorem encFanSpeedSupport_lt (d : List (AcFanSpeedControl × Bool)) : encFanSpe
 
 /-! #### records -/
 
-/-- decoding the bytes of one encoded record gives the record back and leaves what follows -/
-theorem decRec_encRec (ac : AcAbility) (h : WFRec ac) (rest : Bytes) :
-    decRec (encRec ac ++ rest) = .ok (ac, rest) := by
+/-- decoding the bytes of one encoded record (whatever follows, whenever the remaining announced length leaves
+    room for it) gives the record back, and its following length 24 -/
+theorem decRec_encRec (ac : AcAbility) (h : WFRec ac) (rest : Bytes) (remaining : Nat) (hav : recSize ≤ remaining) :
+    decRec (encRec ac ++ rest) remaining = .ok (ac, followingLength) := by
   obtain ⟨_, _, _, _, _, _, _, ⟨hnl, hn0, hnu, _⟩, ⟨hmk, hmu⟩, ⟨hfk, hfu⟩⟩ := h
   have hlen := encodeCString_length ac.ac_name nameLen
+  have hchk : ¬ (2 + followingLength < STRUCT_size ∨ remaining < 2 + followingLength) := by
+    simp only [recSize, STRUCT_size] at hav
+    simp only [followingLength, STRUCT_size]
+    omega
   simp only [encRec, List.cons_append, List.nil_append, List.append_assoc, decRec,
-    List.drop_left' hlen, List.take_left' hlen,
+    List.drop_left' hlen, List.take_left' hlen, hchk, ↓reduceIte,
     decodeCString_encodeCString ac.ac_name nameLen hnl hn0 hnu,
     decModeSupport_enc _ hmk hmu, decFanSpeedSupport_enc _ hfk hfu]
 
-theorem decRecs_encode (acs : List AcAbility) (h : ∀ ac ∈ acs, WFRec ac) (rest : Bytes) :
-    decRecs acs.length (acs.flatMap encRec ++ rest) = .ok (acs, rest) := by
+theorem decLoop_encode (acs : List AcAbility) (h : ∀ ac ∈ acs, WFRec ac) (rest : Bytes) :
+    decLoop (acs.flatMap encRec ++ rest) (recSize * acs.length) = .ok (acs, rest) := by
   induction acs with
-  | nil => rfl
+  | nil => rw [decLoop]; simp
   | cons ac acs ih =>
-    simp only [List.length_cons, List.flatMap_cons, List.append_assoc, decRecs]
-    rw [decRec_encRec ac (h ac (by simp))]
-    simp only
+    have hpos : 0 < recSize * (ac :: acs).length := by simp [recSize, STRUCT_size]
+    have hav : recSize ≤ recSize * (ac :: acs).length := by
+      simp only [List.length_cons, Nat.mul_succ]; omega
+    have hnext : recSize * (ac :: acs).length - (2 + followingLength) = recSize * acs.length := by
+      simp only [List.length_cons, Nat.mul_succ, recSize, STRUCT_size, followingLength]; omega
+    have hdrop : (encRec ac ++ (acs.flatMap encRec ++ rest)).drop (2 + followingLength)
+        = acs.flatMap encRec ++ rest :=
+      List.drop_left' (by rw [encRec_length]; rfl)
+    rw [decLoop]
+    simp only [hpos, ↓reduceDIte, List.flatMap_cons, List.append_assoc]
+    rw [decRec_encRec ac (h ac (by simp)) _ _ hav]
+    simp only [hnext, hdrop]
     rw [ih (fun x hx => h x (by simp [hx]))]
 
 /-- `decode(encode(m) + rest, header with message_length = size(m))` gives `m` back and leaves `rest` -/
@@ -105,9 +119,7 @@ theorem decode_encode (m : Msg) (h : WF m) (rest : Bytes) :
     have hlen : acs.length ≠ 0 := by simpa using hne
     have h0 : recSize * acs.length ≠ 0 := by simp only [recSize, STRUCT_size]; omega
     have h1 : recSize * acs.length ≠ 1 := by simp only [recSize, STRUCT_size]; omega
-    have hdiv : recSize * acs.length / recSize = acs.length := by simp [recSize, STRUCT_size]
-    simp only [decode, encode, size, h0, h1, ↓reduceIte, Nat.mul_mod_right, ne_eq, not_true_eq_false,
-      hdiv, decRecs_encode acs hwf]
+    simp only [decode, encode, size, h0, h1, ↓reduceIte, decLoop_encode acs hwf]
 
 /-! #### the checked encoder does not raise on well-formed messages, and produces bytes -/
 
@@ -165,9 +177,10 @@ theorem encode_allBytes (m : Msg) (h : WF m) : AllBytes (encode m) := by
 
 /-! #### facts about every run of the decoder (any buffer, any announced length) -/
 
-/-- every record the decoder produces from a byte string is well-formed -/
-theorem decRec_WF (bs : Bytes) (hb : AllBytes bs) (ac : AcAbility) (rest : Bytes)
-    (h : decRec bs = .ok (ac, rest)) : WFRec ac ∧ bs.length = recSize + rest.length ∧ rest = bs.drop recSize := by
+/-- every record the decoder produces from a byte string is well-formed; its wire length `2 + L` is at least
+    the 26 known bytes and lies inside the remaining announced length -/
+theorem decRec_WF (bs : Bytes) (hb : AllBytes bs) (remaining : Nat) (ac : AcAbility) (fl : Nat)
+    (h : decRec bs remaining = .ok (ac, fl)) : WFRec ac ∧ recSize ≤ 2 + fl ∧ 2 + fl ≤ remaining := by
   unfold decRec at h
   split at h
   · rename_i acNumber following r
@@ -175,103 +188,91 @@ theorem decRec_WF (bs : Bytes) (hb : AllBytes bs) (ac : AcAbility) (rest : Bytes
     · rename_i sz zc b23 b24 mnc mxc mnh mxh rest' hdrop
       split at h
       · cases h
-      · rename_i name hname
-        injection h with h; injection h with h1 h2
-        subst h1 h2
-        have hr : ∀ x ∈ r, x < 256 := fun x hx => hb x (by simp [hx])
-        have hd : ∀ x ∈ r.drop nameLen, x < 256 := fun x hx => hr x (List.mem_of_mem_drop hx)
-        rw [hdrop] at hd
-        have hraw : AllBytes (r.take nameLen) := fun x hx => hr x (List.mem_of_mem_take hx)
-        obtain ⟨hl, h0, hu, hab⟩ := decodeCString_ok _ _ hname hraw
-        have hl' : name.length ≤ nameLen := by
-          have : (r.take nameLen).length ≤ nameLen := by simp only [List.length_take]; omega
-          omega
-        have hlen : (r.drop nameLen).length = 8 + rest'.length := by rw [hdrop]; simp only [List.length_cons]; omega
-        simp only [List.length_drop, nameLen] at hlen
-        have hrest : rest' = (r.drop nameLen).drop 8 := by rw [hdrop]; rfl
-        refine ⟨⟨hb _ (by simp), hd _ (by simp), hd _ (by simp), hd _ (by simp), hd _ (by simp),
-          hd _ (by simp), hd _ (by simp), ⟨hl', h0, hu, hab⟩, ⟨rfl, rfl⟩, ⟨rfl, rfl⟩⟩, ?_, ?_⟩
-        · simp only [List.length_cons, recSize, STRUCT_size]; omega
-        · rw [hrest]; simp [recSize, STRUCT_size, nameLen, List.drop_drop]
+      · rename_i hchk
+        split at h
+        · cases h
+        · rename_i name hname
+          injection h with h; injection h with h1 h2
+          subst h1 h2
+          have hr : ∀ x ∈ r, x < 256 := fun x hx => hb x (by simp [hx])
+          have hd : ∀ x ∈ r.drop nameLen, x < 256 := fun x hx => hr x (List.mem_of_mem_drop hx)
+          rw [hdrop] at hd
+          have hraw : AllBytes (r.take nameLen) := fun x hx => hr x (List.mem_of_mem_take hx)
+          obtain ⟨hl, h0, hu, hab⟩ := decodeCString_ok _ _ hname hraw
+          have hl' : name.length ≤ nameLen := by
+            have : (r.take nameLen).length ≤ nameLen := by simp only [List.length_take]; omega
+            omega
+          refine ⟨⟨hb _ (by simp), hd _ (by simp), hd _ (by simp), hd _ (by simp), hd _ (by simp),
+            hd _ (by simp), hd _ (by simp), ⟨hl', h0, hu, hab⟩, ⟨rfl, rfl⟩, ⟨rfl, rfl⟩⟩, ?_, ?_⟩
+          · simp only [recSize]; omega
+          · omega
     · cases h
   · cases h
 
-theorem decRecs_spec (n : Nat) : ∀ (bs : Bytes), AllBytes bs → ∀ acs rest, decRecs n bs = .ok (acs, rest) →
-    acs.length = n ∧ (∀ ac ∈ acs, WFRec ac) ∧ rest = bs.drop (recSize * n) := by
-  induction n with
-  | zero =>
-    intro bs _ acs rest h
-    simp only [decRecs] at h
+/-- the loop returns well-formed records and the buffer without the announced bytes; the records the encoder
+    would write for the result are not longer than the announced length; it runs at least once when the
+    announced length is positive -/
+theorem decLoop_spec (bs : Bytes) (remaining : Nat) : AllBytes bs → ∀ acs rest, decLoop bs remaining = .ok (acs, rest) →
+    (∀ ac ∈ acs, WFRec ac) ∧ rest = bs.drop remaining ∧ recSize * acs.length ≤ remaining ∧
+    (0 < remaining → acs ≠ []) := by
+  fun_induction decLoop bs remaining with
+  | case1 bs remaining hpos e hrec => intro _ acs rest h; cases h
+  | case2 bs remaining hpos ac fl hrec e hloop ih => intro _ acs rest h; cases h
+  | case3 bs remaining hpos ac fl hrec acs' rest' hloop ih =>
+    intro hb acs rest h
     injection h with h; injection h with h1 h2
     subst h1 h2
-    refine ⟨rfl, ?_, ?_⟩
-    · intro ac hx; cases hx
-    · rw [Nat.mul_zero, List.drop_zero]
-  | succ n ih =>
-    intro bs hb acs rest h
-    simp only [decRecs] at h
-    split at h
-    · cases h
-    · rename_i ac rest1 hrec
-      split at h
-      · cases h
-      · rename_i acs' rest2 hrecs
-        injection h with h; injection h with h1 h2
-        subst h1 h2
-        obtain ⟨hwf, _, hr1⟩ := decRec_WF bs hb ac rest1 hrec
-        have hb1 : AllBytes rest1 := by
-          rw [hr1]; exact fun b hbm => hb b (List.mem_of_mem_drop hbm)
-        obtain ⟨hl, hwfs, hr2⟩ := ih rest1 hb1 acs' rest2 hrecs
-        refine ⟨by simp [hl], fun x hx => ?_, ?_⟩
-        · rcases List.mem_cons.mp hx with rfl | hx
-          · exact hwf
-          · exact hwfs x hx
-        · rw [hr2, hr1, List.drop_drop]
-          congr 1
-          rw [Nat.mul_succ]; omega
+    obtain ⟨hwf, hge, hle⟩ := decRec_WF bs hb remaining ac fl hrec
+    obtain ⟨hwfs, hr, hsz, _⟩ := ih (fun b hbm => hb b (List.mem_of_mem_drop hbm)) acs' rest' hloop
+    refine ⟨fun x hx => ?_, ?_, ?_, fun _ => by simp⟩
+    · rcases List.mem_cons.mp hx with rfl | hx
+      · exact hwf
+      · exact hwfs x hx
+    · rw [hr, List.drop_drop]
+      congr 1
+      omega
+    · simp only [List.length_cons, Nat.mul_succ]; omega
+  | case4 bs remaining hnpos =>
+    intro _ acs rest h
+    injection h with h; injection h with h1 h2
+    subst h1 h2
+    have : remaining = 0 := by omega
+    subst this
+    exact ⟨fun x hx => (by cases hx), by simp, by simp, fun hc => absurd hc hnpos⟩
 
-/-- every message the decoder produces from a byte string is well-formed -/
+/-- every message the decoder produces from a byte string is well-formed; a successful decode consumes exactly
+    the announced number of bytes; the encoder's `size` of the decoded message is at most that number (smaller
+    exactly when a record carried bytes after the known ones, which the decoder skips: `00 32 <50 bytes>` with
+    announced length 52 decodes to one AC whose encoding has 26 bytes) -/
 theorem decode_WF (buffer : Bytes) (hb : AllBytes buffer) (msgLen : Nat) (m : Msg) (rest : Bytes)
-    (h : decode buffer msgLen = .ok (m, rest)) : WF m ∧ size m = msgLen ∧ rest = buffer.drop msgLen := by
+    (h : decode buffer msgLen = .ok (m, rest)) : WF m ∧ size m ≤ msgLen ∧ rest = buffer.drop msgLen := by
   unfold decode at h
   split at h
   · rename_i h0
     injection h with h; injection h with h1 h2; subst h1 h2 h0
-    exact ⟨trivial, rfl, rfl⟩
+    exact ⟨trivial, Nat.le_refl _, rfl⟩
   · split at h
     · rename_i h1
       split at h
       · cases h
       · rename_i b rest'
         injection h with h; injection h with h1' h2; subst h1' h2 h1
-        exact ⟨hb b (by simp), rfl, rfl⟩
+        exact ⟨hb b (by simp), Nat.le_refl _, rfl⟩
     · rename_i h0 h1
       split at h
       · cases h
-      · rename_i hmod
-        split at h
-        · cases h
-        · rename_i acs rest' hrecs
-          injection h with h; injection h with h1' h2; subst h1' h2
-          obtain ⟨hl, hwf, hr⟩ := decRecs_spec _ buffer hb acs rest' hrecs
-          have hmod' : msgLen % recSize = 0 := by
-            simp only [ne_eq, Decidable.not_not] at hmod; exact hmod
-          have hmul : recSize * (msgLen / recSize) = msgLen := by
-            have := Nat.div_add_mod msgLen recSize
-            omega
-          refine ⟨⟨?_, hwf⟩, by simp only [size, hl, hmul], by rw [hr, hmul]⟩
-          intro hnil
-          subst hnil
-          simp only [List.length_nil] at hl
-          rw [← hl] at hmul
-          omega
+      · rename_i acs rest' hloop
+        injection h with h; injection h with h1' h2; subst h1' h2
+        obtain ⟨hwf, hr, hsz, hne⟩ := decLoop_spec buffer msgLen hb acs rest' hloop
+        exact ⟨⟨hne (by omega), hwf⟩, by simpa only [size] using hsz, hr⟩
 
-/-- re-encoding any decoded message and decoding it again gives the same message -/
+/-- re-encoding any decoded message and decoding it again gives the same message (the re-encoding is not
+    longer than the payload it was decoded from) -/
 theorem decode_reencode (buffer : Bytes) (hb : AllBytes buffer) (msgLen : Nat) (m : Msg) (rest : Bytes)
     (h : decode buffer msgLen = .ok (m, rest)) (rest' : Bytes) :
-    encodeE m = .ok (encode m) ∧ (encode m).length = msgLen ∧
+    encodeE m = .ok (encode m) ∧ (encode m).length ≤ msgLen ∧
     decode (encode m ++ rest') (size m) = .ok (m, rest') := by
   obtain ⟨hwf, hsz, _⟩ := decode_WF buffer hb msgLen m rest h
-  exact ⟨encodeE_ok m hwf, by rw [encode_length, hsz], decode_encode m hwf rest'⟩
+  exact ⟨encodeE_ok m hwf, by rw [encode_length]; exact hsz, decode_encode m hwf rest'⟩
 
 end PyAirtouch.Lemmas.At5FF11
